@@ -42,6 +42,8 @@ def _prepare_datadir(base, wid, arm, repo):
     d = os.path.join(base, 'w%d' % wid, 'data')
     os.makedirs(os.path.join(d, 'database'), exist_ok=True)
     opts = {'enable_bitcoinlib_logging': 'False', 'loglevel': 'CRITICAL'}
+    if arm.get('library_logging'):
+        opts = {'enable_bitcoinlib_logging': 'True', 'loglevel': 'WARNING'}     # the shipped defaults: file log in the data dir
     common = {'service_caching_enabled': 'True', 'allow_database_threads': 'True'}
     common.update(arm.get('config_common', {}))
     with open(os.path.join(d, 'config.ini'), 'w') as f:
@@ -59,13 +61,15 @@ def _prepare_datadir(base, wid, arm, repo):
     return d
 
 
-def _import_library(repo):
+def _import_library(repo, keep_logging=False):
     sys.path.insert(0, repo)
     import logging
     import bitcoinlib
     lib_file = os.path.realpath(bitcoinlib.__file__)
     if not lib_file.startswith(os.path.realpath(repo) + os.sep):
         raise RuntimeError("bitcoinlib imported from %s, expected under %s" % (lib_file, repo))
+    if keep_logging:
+        return bitcoinlib
     lg = logging.getLogger('bitcoinlib')
     lg.handlers = [logging.NullHandler()]
     lg.propagate = False
@@ -185,7 +189,7 @@ def worker_main(wid, arm, repo, base, taskq, resq, known):
             if k not in arm.get('env', {}):
                 os.environ.pop(k, None)
         sys.path.insert(0, VERIF)
-        _import_library(repo)
+        _import_library(repo, keep_logging=bool(arm.get('library_logging')))
         scen = importlib.import_module(arm['module'])
         if hasattr(scen, 'init_worker'):
             scen.init_worker(d)
